@@ -609,6 +609,18 @@ def run(ctx):
                               ('(for %s in [5] return %s + 1)[1] + %s' % (s1, s1, s1), 1006, 'outer binding visible again behind the binder'),
                               ('%s + zz' % s1, 1001, 'outer binding')):
             pos_cases.append({'bind': outer, 'e': e, 'want': want, 'what': what, 'bound': [p, ['zz']]})
+    # an iteration variable whose name is an operator-joined combination of names bound outside: inside the binder the text is the variable, BEHIND the
+    # binder (its context popped) the same characters are arithmetic on the outer names again (seeded change C10_h: the set of bound names the lexer
+    # asks for was cached and survived the pop)
+    for sym, outer_v in (('-', 9), ('+', 15), ('/', 4)):
+        t = 'a%sb' % sym
+        ab = [[['a'], 12], [['b'], 3]]
+        for e, want in (('sum(for %s in [1,2] return %s*10) + %s' % (t, t, t), 30 + outer_v),
+                        ('(for %s in [5] return %s + 1)[1] + %s' % (t, t, t), 6 + outer_v),
+                        ('if (some %s in [1,2] satisfies %s > 1) then %s else 0' % (t, t, t), outer_v),
+                        ('if (every %s in [1,2] satisfies %s > 0) then %s else 0' % (t, t, t), outer_v),
+                        ('[%s, sum(for %s in [1,2] return %s), %s]' % (t, t, t, t), [outer_v, 3, outer_v])):
+            pos_cases.append({'bind': ab, 'e': e, 'want': want, 'what': 'operator-joined iteration variable, the same text behind the binder', 'bound': [['a'], ['b']]})
     # the keyword `in` as the first part of an iteration variable: no variable name before it, the text is an ordinary name (fixed 83bd59b: was a panic)
     for text in ('for in+x in [1] return 1', 'some in-x in [1] satisfies true', 'every in.a in [1] satisfies true'):
         pos_cases.append({'bind': [[['zz'], 1]], 'e': text, 'want': 'parse', 'what': 'in as first part', 'bound': [['zz']]})
